@@ -239,6 +239,7 @@ func derefsParamUnconditionally(fn *ssa.Function, p *ssa.Parameter) bool {
 
 // nilmapFacts is set by the property that runs the NILMAP scan (facts are needed to judge guards inside callees).
 var nilmapFacts *Facts
+var nilmapProg *Prog
 
 // derefsParamUnguarded: somewhere in the callee the parameter is dereferenced (field access or load) at a point
 // that is not dominated by a test establishing that it is non-nil.
